@@ -29,6 +29,7 @@ class Path:
         self.calls = []
         self.blocks = []
         self.stores = []     # (path, poly, node) in order
+        self.events = []     # ("store", path, poly, node) / ("call", callee, [args], node) in order
         self.end = None
 
     def get(self, path):
@@ -117,7 +118,15 @@ class _Ev:
                 return p.get(nd["name"])
             return lin.p_atom(nd["name"])
         if k in ("Member", "Subscript"):
-            return p.get(self.lv(p, j))
+            own = self.lv(p, j)
+            if own in p.env:
+                return p.env[own]
+            if k == "Member" and not nd.get("arrow"):
+                # a field of a struct variable that was last assigned as a whole
+                b = fn.strip(nd["ch"][0], casts=False)
+                if fn.nodes[b]["k"] == "DeclRef" and fn.nodes[b]["name"] in p.env:
+                    return p.get("%s.%s" % (_wrap(lin.p_str(p.env[fn.nodes[b]["name"]])), nd["field"]))
+            return lin.p_atom(own)
         if k == "Un":
             op = nd["op"]
             if op == "*":
@@ -134,6 +143,7 @@ class _Ev:
                 new = lin.p_add(old, lin.p_const(1), 1 if "++" in op else -1)
                 p.env[path] = new
                 p.stores.append((path, new, j))
+                p.events.append(("store", path, new, j))
                 return old if op.startswith("post") else new
             return lin.p_atom("%s%s" % (op, _wrap(lin.p_str(self.ev(p, nd["ch"][0])))))
         if k == "Bin":
@@ -160,8 +170,11 @@ class _Ev:
         if k == "Assign":
             path = self.lv(p, nd["ch"][0])
             v = self.ev(p, nd["ch"][1])
+            for key in [k_ for k_ in p.env if k_.startswith(path + ".")]:
+                del p.env[key]       # whole-struct assignment
             p.env[path] = v
             p.stores.append((path, v, j))
+            p.events.append(("store", path, v, j))
             return v
         if k == "CompoundAssign":
             path = self.lv(p, nd["ch"][0])
@@ -178,12 +191,14 @@ class _Ev:
                 v = lin.p_atom("(%s %s %s)" % (lin.p_str(old), op[:-1], lin.p_str(r)))
             p.env[path] = v
             p.stores.append((path, v, j))
+            p.events.append(("store", path, v, j))
             return v
         if k == "Var":
             if nd["ch"] and fn.nodes[nd["ch"][0]]["k"] != "Absent":
                 v = self.ev(p, nd["ch"][0])
                 p.env[nd["name"]] = v
                 p.stores.append((nd["name"], v, j))
+                p.events.append(("store", nd["name"], v, j))
                 return v
             p.env.pop(nd["name"], None)
             return lin.p_atom(nd["name"])
@@ -196,6 +211,7 @@ class _Ev:
             args = [lin.p_str(self.ev(p, a)) for a in nd["ch"][1:]]
             cal = nd.get("callee") or fn.canon(nd["ch"][0], subst=False)
             p.calls.append((cal, args, j))
+            p.events.append(("call", cal, args, j))
             if cal not in LOGGING and not (self.P is not None and nd.get("callee") and self.P.is_pure(cal)):
                 # memory reachable from the callee may change
                 for key in [k_ for k_ in p.env if any(c in k_ for c in ("->", "[", "*", "."))]:
@@ -292,6 +308,61 @@ def run_paths(fn, P=None, limit=4096, start=None, stops=None):
     count = [0]
     stops = stops or {}
 
+    # inner loops are abstracted: at the first visit of a loop header everything the loop may write is
+    # forgotten; the path then either leaves through the loop's exit edge or goes through the body once
+    # (to find the break / return paths out of it)
+    headers = {}
+    color = {}
+    stack = [(cfg.entry if start is None else start, iter(cfg.succs[cfg.entry if start is None else start]))]
+    color[stack[0][0]] = 1
+    while stack:
+        u, it = stack[-1]
+        adv = False
+        for v in it:
+            if v is None or v in stops:
+                continue
+            if color.get(v) == 1:
+                tn = cfg.blocks[v].get("term")
+                un = cfg.blocks[u].get("term")
+                if tn is not None and tn >= 0 and fn.nodes[tn]["k"] in ("For", "While"):
+                    headers[v] = tn
+                elif un is not None and un >= 0 and fn.nodes[un]["k"] == "Do":
+                    headers[v] = un
+                else:
+                    # the back edge of a for / while body enters the increment / condition block, which may
+                    # be split from the block that carries the terminator: find the enclosing loop statement
+                    cand = [cfg.blocks[x].get("term") for x in cfg.blocks if cfg.blocks[x].get("term") is not None and cfg.blocks[x]["term"] >= 0 and fn.nodes[cfg.blocks[x]["term"]]["k"] in ("For", "While", "Do") and any(e in set(fn.walk(cfg.blocks[x]["term"])) for e in cfg.blocks[v]["elems"] if e >= 0)]
+                    if not cand:
+                        raise AnalysisIncomplete("%s: loop without a loop statement" % fn.name)
+                    headers[v] = max(cand, key=lambda n_: len(list(fn.ancestors(n_))))
+            elif v not in color:
+                color[v] = 1
+                stack.append((v, iter(cfg.succs[v])))
+                adv = True
+                break
+        if not adv:
+            color[u] = 2
+            stack.pop()
+
+    def havoc(p, b):
+        from . import paths as _paths
+        ln = headers[b]
+        mem = False
+        for s_ in _paths.stores(fn, ln):
+            nm = s_["path"]
+            if all(ch.isalnum() or ch == "_" for ch in nm):
+                p.env[nm] = lin.p_atom("%s@%d" % (nm, fn.line(ln)))
+            else:
+                mem = True
+        for v_ in fn.find("Var", root=ln):
+            p.env.pop(fn.nodes[v_]["name"], None)
+        if mem or fn.calls(root=ln):
+            for key in [k_ for k_ in p.env if any(c in k_ for c in ("->", "[", "*", "."))]:
+                del p.env[key]
+        # cached values of expressions inside the loop are stale
+        for e in fn.walk(ln):
+            p.val.pop(e, None)
+
     def step(p, b):
         els = cfg.blocks[b]["elems"]
         for e in els:
@@ -307,6 +378,7 @@ def run_paths(fn, P=None, limit=4096, start=None, stops=None):
         q.calls = list(p.calls)
         q.blocks = list(p.blocks)
         q.stores = list(p.stores)
+        q.events = list(p.events)
         q.end = p.end
         return q
 
@@ -321,7 +393,11 @@ def run_paths(fn, P=None, limit=4096, start=None, stops=None):
                 raise AnalysisIncomplete("too many paths in %s" % fn.name)
             return
         if b in p.blocks:
-            raise AnalysisIncomplete("%s is not loop-free" % fn.name)
+            if b in headers:
+                return          # further iterations are covered by the havoc at the first visit
+            raise AnalysisIncomplete("%s: irreducible flow" % fn.name)
+        if b in headers:
+            havoc(p, b)
         p.blocks.append(b)
         step(p, b)
         if b == cfg.exit:
